@@ -3,3 +3,4 @@ import DiplomatModel.EnumGen
 import DiplomatModel.Utf8
 import DiplomatModel.Slices
 import DiplomatModel.Write
+import DiplomatModel.Config
